@@ -12,6 +12,15 @@ spec fn sameButUser(a url.URL, b url.URL) bool =
   a.RawPath == b.RawPath && a.OmitHost == b.OmitHost && a.ForceQuery == b.ForceQuery &&
   a.RawQuery == b.RawQuery && a.Fragment == b.Fragment && a.RawFragment == b.RawFragment
 
+func (*URL).MarshalText
+  requires u != nil
+
+func (*URL).UnmarshalText
+  requires u != nil
+
+func (*URL).UnmarshalJSON
+  requires u != nil
+
 func RedactUserinfo
   requires u != nil
   modifies nothing
